@@ -801,7 +801,8 @@ class C19(Check):
     def extra_violations(self, st, tier, seed):
         out = []
         rc, log = race_run(seed, tier)
-        self._race = {"rc": rc, "log_tail": log[-600:]}
+        m = re.search(r"evaluations (\d+)", log)
+        self._race = {"rc": rc, "log_tail": log[-600:], "evaluations": int(m.group(1)) if m else 2}
         if rc != 0:
             out.append(("race-detector run reports a data race or a result differing from the sequential one", log[-2000:]))
         return out
@@ -818,9 +819,11 @@ def race_run(seed, tier):
     rc, out = build.sh("go build -race -tags verif -o %s ./harness" % exe, cwd=godir, env=build.GOENV)
     if rc != 0:
         return 1, "race build failed: " + out
-    n = "40" if tier == "quick" else "400"
-    rc, out = build.sh([exe, "race", str(seed), n], env=dict(os.environ, GORACE="halt_on_error=1"), timeout=3000)
-    return rc, out
+    ds = gen.docs(seed, 600 if tier == "quick" else 6000)
+    n = "60" if tier == "quick" else "600"
+    p = subprocess.run([exe, "race", str(seed), n], input=("\n".join(d.hex() for d in ds) + "\n").encode(), stdout=subprocess.PIPE, stderr=subprocess.STDOUT,
+                       env=dict(os.environ, GORACE="halt_on_error=1"), timeout=3000)
+    return p.returncode, p.stdout.decode("utf-8", "replace")
 
 
 reg(C19("C19"))
